@@ -52,6 +52,86 @@ func kindOfTypeExpr(e ast.Expr) kind {
 	return kUnknown
 }
 
+// ---- package-level constants and one-line helper functions ---------------------------------------
+//
+// A named constant (`const heartbeatMask byte = 0x40`, `compressThreshold = 1024`) means its value,
+// and a helper whose body is a single `return <expr>` means that expression: both are resolved here
+// so that introducing a name or extracting a helper does not change the generated definitions.
+
+type constInfo struct {
+	val uint64
+	k   kind
+}
+
+var pkgConsts = map[string]constInfo{}
+var pkgFuncs = map[string]*ast.FuncDecl{}
+
+// usePkg makes the constants and one-line helpers of a package visible to the translator.
+func usePkg(pi *pkgInfo) {
+	pkgConsts = map[string]constInfo{}
+	pkgFuncs = map[string]*ast.FuncDecl{}
+	for _, fname := range sortedKeys(pi.files) {
+		for _, d := range pi.files[fname].Decls {
+			switch t := d.(type) {
+			case *ast.GenDecl:
+				if t.Tok != token.CONST {
+					continue
+				}
+				var curType ast.Expr
+				for _, sp := range t.Specs {
+					vs := sp.(*ast.ValueSpec)
+					if vs.Type != nil {
+						curType = vs.Type
+					} else if len(vs.Values) > 0 {
+						curType = nil
+					}
+					if len(vs.Names) != len(vs.Values) {
+						continue
+					}
+					for i, nm := range vs.Names {
+						v := vs.Values[i]
+						for {
+							pe, ok := v.(*ast.ParenExpr)
+							if !ok {
+								break
+							}
+							v = pe.X
+						}
+						bl, ok := v.(*ast.BasicLit)
+						if !ok || bl.Kind != token.INT {
+							continue
+						}
+						k := kUnknown
+						if curType != nil {
+							k = kindOfTypeExpr(curType)
+						}
+						val, err := strconv.ParseUint(strings.ReplaceAll(bl.Value, "_", ""), 0, 64)
+						if err == nil {
+							pkgConsts[nm.Name] = constInfo{val, k}
+						}
+					}
+				}
+			case *ast.FuncDecl:
+				if t.Recv == nil && t.Body != nil && len(t.Body.List) == 1 && t.Type.Results != nil && len(t.Type.Results.List) == 1 {
+					if rs, ok := t.Body.List[0].(*ast.ReturnStmt); ok && len(rs.Results) == 1 {
+						pkgFuncs[t.Name.Name] = t
+					}
+				}
+			}
+		}
+	}
+}
+
+// isConstIdent: an identifier that names a package-level integer constant
+func isConstIdent(e ast.Expr) bool {
+	id, ok := e.(*ast.Ident)
+	if !ok {
+		return false
+	}
+	_, ok = pkgConsts[id.Name]
+	return ok
+}
+
 // env gives the translation of identifiers and special forms.
 type env struct {
 	vars map[string]binding
@@ -62,6 +142,23 @@ type env struct {
 type binding struct {
 	lean string
 	k    kind
+}
+
+// special2 gives the generator's own special forms precedence over helper inlining
+func (en *env) special2(e ast.Expr, want kind) (s string, k kind, ok bool) {
+	if en.special == nil {
+		return "", kUnknown, false
+	}
+	defer func() {
+		if r := recover(); r != nil {
+			if _, isTr := r.(trErr); isTr {
+				ok = false
+				return
+			}
+			panic(r)
+		}
+	}()
+	return en.special(e, want)
 }
 
 func (en *env) clone() *env {
@@ -114,6 +211,9 @@ func (en *env) kindOf(e ast.Expr) kind {
 		if t.Name == "true" || t.Name == "false" {
 			return kBool
 		}
+		if c, ok := pkgConsts[t.Name]; ok {
+			return c.k
+		}
 		return kUnknown
 	case *ast.UnaryExpr:
 		if t.Op == token.NOT {
@@ -139,6 +239,13 @@ func (en *env) kindOf(e ast.Expr) kind {
 		}
 		if id, ok := t.Fun.(*ast.Ident); ok && id.Name == "len" {
 			return kInt
+		}
+		if id, ok := t.Fun.(*ast.Ident); ok {
+			if fd, ok := pkgFuncs[id.Name]; ok {
+				if _, bound := en.vars[id.Name]; !bound {
+					return kindOfTypeExpr(fd.Type.Results.List[0].Type)
+				}
+			}
 		}
 	}
 	if en.special != nil {
@@ -173,6 +280,16 @@ func (en *env) tr(e ast.Expr, want kind) (string, kind) {
 		case "false":
 			return "false", kBool
 		}
+		if c, ok := pkgConsts[t.Name]; ok {
+			k := c.k
+			if k == kUnknown {
+				k = want
+			}
+			if k == kUnknown || k == kBool {
+				bail("cannot type constant %s", t.Name)
+			}
+			return lit(c.val, k), k
+		}
 		bail("unknown identifier %s", t.Name)
 	case *ast.UnaryExpr:
 		switch t.Op {
@@ -200,6 +317,39 @@ func (en *env) tr(e ast.Expr, want kind) (string, kind) {
 				}
 				s, _ := en.tr(t.Args[0], ak)
 				return convert(s, ak, k), k
+			}
+		}
+		// a one-line helper of the package: translate its return expression with the parameters
+		// bound to the (translated) arguments
+		if id, ok := t.Fun.(*ast.Ident); ok {
+			if fd, ok := pkgFuncs[id.Name]; ok {
+				if s, k, ok := en.special2(e, want); ok {
+					return s, k
+				}
+				sub := en.clone()
+				i := 0
+				for _, p := range fd.Type.Params.List {
+					pk := kindOfTypeExpr(p.Type)
+					for _, n := range p.Names {
+						if i >= len(t.Args) {
+							bail("helper %s: argument count", id.Name)
+						}
+						// the argument keeps the kind it has at the call site (a length stays a Nat
+						// even though the parameter is declared `int`)
+						hint := en.kindOf(t.Args[i])
+						if hint == kUnknown {
+							hint = pk
+						}
+						as, ak := en.tr(t.Args[i], hint)
+						sub.vars[n.Name] = binding{as, ak}
+						i++
+					}
+				}
+				rk := want
+				if rk == kUnknown {
+					rk = kindOfTypeExpr(fd.Type.Results.List[0].Type)
+				}
+				return sub.tr(fd.Body.List[0].(*ast.ReturnStmt).Results[0], rk)
 			}
 		}
 	}
@@ -429,4 +579,153 @@ func inlineFloatTempsWith(list []ast.Stmt, sub map[string]ast.Expr) []ast.Stmt {
 
 func inlineFloatTemps(list []ast.Stmt) []ast.Stmt {
 	return inlineFloatTempsWith(list, map[string]ast.Expr{})
+}
+
+// ---- inlining of calls to sibling methods ---------------------------------------------------------
+//
+// `return p.poolAt(int(math.Ceil(p.levelOf(size))))` means the same as the code before the two
+// helpers were extracted.  Calls to methods of the same receiver are inlined before translation:
+// a method whose body is a single `return e` anywhere in an expression, any other method in tail
+// position (`return recv.m(args)` becomes the parameter definitions followed by m's body).
+
+func methodOf(pi *pkgInfo, recvType, name string) *ast.FuncDecl {
+	fd := pi.funcs[recvType+"."+name]
+	if fd == nil || fd.Body == nil || fd.Recv == nil || len(fd.Recv.List) != 1 {
+		return nil
+	}
+	return fd
+}
+
+func recvNameOf(fd *ast.FuncDecl) string {
+	if len(fd.Recv.List[0].Names) == 1 {
+		return fd.Recv.List[0].Names[0].Name
+	}
+	return ""
+}
+
+func paramNames(fd *ast.FuncDecl) []string {
+	var out []string
+	if fd.Type.Params != nil {
+		for _, p := range fd.Type.Params.List {
+			for _, n := range p.Names {
+				out = append(out, n.Name)
+			}
+		}
+	}
+	return out
+}
+
+type recvInliner struct {
+	pi       *pkgInfo
+	recvType string
+	recv     string
+	depth    int
+}
+
+func (ri *recvInliner) siblingCall(e ast.Expr) (*ast.FuncDecl, []ast.Expr) {
+	c, ok := e.(*ast.CallExpr)
+	if !ok {
+		return nil, nil
+	}
+	se, ok := c.Fun.(*ast.SelectorExpr)
+	if !ok {
+		return nil, nil
+	}
+	id, ok := se.X.(*ast.Ident)
+	if !ok || id.Name != ri.recv {
+		return nil, nil
+	}
+	fd := methodOf(ri.pi, ri.recvType, se.Sel.Name)
+	if fd == nil || recvNameOf(fd) != ri.recv || len(paramNames(fd)) != len(c.Args) {
+		return nil, nil
+	}
+	return fd, c.Args
+}
+
+func (ri *recvInliner) expr(e ast.Expr) ast.Expr {
+	switch t := e.(type) {
+	case *ast.ParenExpr:
+		return &ast.ParenExpr{X: ri.expr(t.X)}
+	case *ast.BinaryExpr:
+		return &ast.BinaryExpr{X: ri.expr(t.X), Op: t.Op, Y: ri.expr(t.Y)}
+	case *ast.UnaryExpr:
+		return &ast.UnaryExpr{Op: t.Op, X: ri.expr(t.X)}
+	case *ast.IndexExpr:
+		return &ast.IndexExpr{X: ri.expr(t.X), Index: ri.expr(t.Index)}
+	case *ast.CallExpr:
+		args := make([]ast.Expr, len(t.Args))
+		for i, a := range t.Args {
+			args[i] = ri.expr(a)
+		}
+		n := &ast.CallExpr{Fun: t.Fun, Args: args}
+		if fd, _ := ri.siblingCall(n); fd != nil && len(fd.Body.List) == 1 && ri.depth < 4 {
+			if rs, ok := fd.Body.List[0].(*ast.ReturnStmt); ok && len(rs.Results) == 1 {
+				sub := map[string]ast.Expr{}
+				for i, pn := range paramNames(fd) {
+					sub[pn] = args[i]
+				}
+				ri.depth++
+				r := ri.expr(substExpr(rs.Results[0], sub))
+				ri.depth--
+				return &ast.ParenExpr{X: r}
+			}
+		}
+		return n
+	}
+	return e
+}
+
+func (ri *recvInliner) stmts(list []ast.Stmt) []ast.Stmt {
+	var out []ast.Stmt
+	for _, s := range list {
+		switch t := s.(type) {
+		case *ast.ReturnStmt:
+			if len(t.Results) == 1 {
+				r := ri.expr(t.Results[0])
+				if fd, args := ri.siblingCall(r); fd != nil && len(fd.Body.List) > 1 && ri.depth < 4 {
+					// tail call: the parameters, then the callee's body
+					for i, pn := range paramNames(fd) {
+						out = append(out, &ast.AssignStmt{Lhs: []ast.Expr{ast.NewIdent(pn)}, Tok: token.DEFINE, Rhs: []ast.Expr{args[i]}})
+					}
+					ri.depth++
+					out = append(out, ri.stmts(fd.Body.List)...)
+					ri.depth--
+					continue
+				}
+				out = append(out, &ast.ReturnStmt{Results: []ast.Expr{r}})
+				continue
+			}
+			out = append(out, t)
+		case *ast.AssignStmt:
+			rhs := make([]ast.Expr, len(t.Rhs))
+			for i, r := range t.Rhs {
+				rhs[i] = ri.expr(r)
+			}
+			out = append(out, &ast.AssignStmt{Lhs: t.Lhs, Tok: t.Tok, Rhs: rhs})
+		case *ast.IfStmt:
+			n := &ast.IfStmt{Init: t.Init, Cond: ri.expr(t.Cond), Body: &ast.BlockStmt{List: ri.stmts(t.Body.List)}}
+			if t.Else != nil {
+				if eb, ok := t.Else.(*ast.BlockStmt); ok {
+					n.Else = &ast.BlockStmt{List: ri.stmts(eb.List)}
+				} else {
+					n.Else = t.Else
+				}
+			}
+			out = append(out, n)
+		case *ast.ExprStmt:
+			out = append(out, &ast.ExprStmt{X: ri.expr(t.X)})
+		default:
+			out = append(out, s)
+		}
+	}
+	return out
+}
+
+// inlineSiblingCalls returns the body of fd with calls to methods of the same receiver inlined.
+func inlineSiblingCalls(pi *pkgInfo, recvType string, fd *ast.FuncDecl) []ast.Stmt {
+	ri := &recvInliner{pi: pi, recvType: recvType, recv: recvNameOf(fd)}
+	if ri.recv == "" {
+		return fd.Body.List
+	}
+	return ri.stmts(fd.Body.List)
 }
